@@ -8,7 +8,7 @@ use evalexpr::Value;
 // ----------------------------------------------------------------------------- programs
 
 /// statements used to build programs with effects, calls and failures
-pub const STATEMENTS: [&str; 39] = [
+pub const STATEMENTS: [&str; 41] = [
     "a = 2", "a += 3", "b = a * 2", "a = \"s\"", "f(a)", "g(1)", "h(1)", "1/0", "zz", "true + 1", "f(1) + g(2)", "false && f(5)",
     "(a = 4, f(6))", "b", "a", "a *= 2.5", "c = (a, b)", "f(g(7))", "a -= f(1)", "9223372036854775807 + 1", "b = f(8); a = b", "g(f(zz))",
     "zz += 1", "a /= 0", "a += true", "a = a", "true", "42",
@@ -16,6 +16,9 @@ pub const STATEMENTS: [&str; 39] = [
     "t ||= f(1)", "u &&= g(\"x\")", "t &&= u", "u ||= f(t)",
     // compound assignments that do not change the value, and assignment operators that are reached but cannot be applied
     "a += 0", "a *= 1", "u ||= false", "t &&= true", "a =", "1 = 2", "(a) += 2",
+    // compound assignments whose right-hand side has effects of its own: it is evaluated BEFORE the target is read
+    // (an unbound target still lets the effects happen; an assignment to the target inside it is seen by the read)
+    "zz += (c = 3; f(1))", "a += (a = 10; f(5))",
 ];
 
 fn program_setup() -> Vec<String> {
@@ -242,6 +245,14 @@ impl Property for C11 {
             }
             if case.human.contains('=') && !case.human.contains("==") && eval_result(mutr).starts_with("ok") && !out.impl_resp[8].starts_with("ok") {
                 return Verdict::SpecViolation(format!("assignment on a context without storage succeeded: `{}`", mutr));
+            }
+            // "reject every assignment in the same way": where the reference run is stopped by the storage-less context
+            // (ContextNotMutable), the real context must answer with that very error, not with a type or other error
+            if eval_result(&out.drv_resp[6]) == "err ContextNotMutable[]" && eval_result(mutr) != "err ContextNotMutable[]" {
+                return Verdict::SpecViolation(format!(
+                    "a context without variable storage must reject the assignment with ContextNotMutable, the mutable run gives `{}`",
+                    eval_result(mutr)
+                ));
             }
         }
         for i in 0..case.impl_lines.len() {
@@ -650,7 +661,7 @@ impl Property for C09 {
     }
     fn rule(&self) -> String {
         "the complete configuration matrix: (49 builtin names + 5 other names + ~190 near misses of builtin names) x {EmptyContext, EmptyContextWithBuiltinFunctions, HashMapContext x builtin switch x user function (none / identity / constant / failing / returning FunctionIdentifierNotFound) \
-         x variable of the same name x {as is, cloned, clone_from into a context with the opposite switch, after clear_functions}} x call forms {n(x), n x, n(), n(x, y), m n x, n, n true, n \"s\", n 1.5}, read-only and (HashMapContext) through the mutable evaluator: resolution (user function first, then builtins unless disabled, else the unknown-function error naming n) and argument shape (recorded by the user function) as stated. \
+         x variable of the same name x {as is, cloned, clone_from into a context with the opposite switch, after clear_functions}} x call forms {n(x), n x, n(), n(x, y), m n x, n, n true, n \"s\", n 1.5, n(x, y, x)}, read-only and (HashMapContext) through the mutable evaluator: resolution (user function first, then builtins unless disabled, else the unknown-function error naming n) and argument shape (recorded by the user function) as stated. \
          non-trivial = a function is resolved (user or builtin); distinct = distinct configuration"
             .into()
     }
@@ -690,6 +701,11 @@ impl Property for C09 {
                                     continue;
                                 }
                                 let mut lines = vec![format!("new 0 {}", ctx)];
+                                if ctx != "hm" {
+                                    // the stateless contexts: the switch cannot be moved away from its fixed position
+                                    lines.push("setb 0 0".to_string());
+                                    lines.push("setb 0 1".to_string());
+                                }
                                 if ctx == "hm" {
                                     lines.push(format!("setb 0 {}", sw));
                                     lines.push(format!("setv 0 {} I2", xarg("x")));
@@ -736,6 +752,7 @@ impl Property for C09 {
                                     format!("{} true", name),
                                     format!("{} \"s\"", name),
                                     format!("{} 1.5", name),
+                                    format!("{}({}, {}, {})", name, arg, arg2, arg),
                                 ] {
                                     lines.push(format!("eval {} ro s value {}", slot, xarg(&form)));
                                     forms.push(form.clone());
@@ -779,11 +796,22 @@ impl Property for C09 {
         let (a1, a2) = if ctx == "hm" { ("I2", "I3") } else { ("I2", "I3") };
         let arg_shapes = [
             a1.to_string(), a1.to_string(), "E".to_string(), format!("T({},{})", a1, a2), a1.to_string(), String::new(), "Bt".to_string(), "S73".to_string(),
-            "F3ff8000000000000".to_string(),
+            "F3ff8000000000000".to_string(), format!("T({},{},{})", a1, a2, a1),
         ];
+        if ctx != "hm" {
+            let (enable, disable) = (&out.impl_resp[1], &out.impl_resp[2]);
+            let (want_enable, want_disable) =
+                if ctx == "empty" { ("err BuiltinFunctionsCannotBeEnabled[]", "ok ()") } else { ("ok ()", "err BuiltinFunctionsCannotBeDisabled[]") };
+            if enable != want_enable || disable != want_disable {
+                return Verdict::SpecViolation(format!(
+                    "{}: set_builtin_functions_disabled(false) gives `{}`, (true) gives `{}`; the switch of this context is fixed: expected `{}` / `{}`",
+                    ctx, enable, disable, want_enable, want_disable
+                ));
+            }
+        }
         let mut resolved = false;
         for (k, &i) in evals.iter().enumerate() {
-            let k = k % 9; // the nine forms read-only, then (HashMapContext) the same nine through the mutable evaluator
+            let k = k % 10; // the ten forms read-only, then (HashMapContext) the same ten through the mutable evaluator
             let r = &out.impl_resp[i];
             let res = eval_result(r);
             let log = r.split(" ; ").nth(1).unwrap_or("");
